@@ -34,11 +34,11 @@ P = {
     "C07": ("proof", "Proved, stage by stage, for every input: the tokenizer never panics on any text (it equals the total scanner specification: C08_tokenize_total); the front-end parser never panics on any token list (C09_parse_correct) and cst_to_ast is total on every CST it returns (C07_cst_to_ast_total); validation has no panicking path (C07_validate_no_panic); once the grammar is coded, validated_ast_to_machine never hits a FIRST-map unwrap or index_map[i] failure and machine_to_table never hits rules[i], get_shift_dest(..).unwrap(), the 'Impossible: goto conflict' or a table index out of range (C07_generator_no_panic, from the generator invariants). "
             "Partial: termination (the model's loops take fuel; FIRST fixpoint and worklist bounds are not theorems), Encode/text-emission unwraps after validation (get_type, unique names) and the parse-error slice are covered by the correspondence only: every stage runs under catch_unwind with a watchdog (and generate() in child processes) on valid, mutated, malformed and size-bound inputs; the model's panics are explicit (Res.panic at every unwrap/slice/index site) and its outcome class is compared.",
             "§7 C07", "per-stage no-panic theorems + catch_unwind/watchdog correspondence"),
-    "C08": ("proof", "Full for the tokenizer: for every source text, the character state machine of tokenize.rs (model with explicit byte indices and source slices) = the scanner specification Spec.scan, which states the documented rules with explicit maximal munch and a bracket stack: same tokens, payloads and byte positions, or the same Lex(index, char?) (C08_tokenize_eq_spec; ≈ 900 lines of proof). Spec is total and only reports Lex (C08_scan_total); `::` is always one token. "
+    "C08": ("proof", "Full for the tokenizer: for every source text, the character state machine of tokenize.rs (model with explicit byte indices and source slices) = the scanner specification Spec.scan, which states the documented rules with explicit maximal munch and a bracket stack: same tokens, payloads and byte positions, or the same Lex(index, char?) (C08_tokenize_eq_spec; ≈ 900 lines of proof). Spec is total and only reports Lex (C08_scan_total); `::` is always one token; every returned token sits in the source at its own start offset: slicing the source by its span gives its text (C08_positions). "
             "The implementation is compared with scan and with the model on every generated text and on single-character probes over all scalars < U+3100 (all scalars in thorough).",
             "§0, §7 C08", "tokenize = scanner-specification theorem + three-way differential"),
-    "C09": ("proof", "Kernel-checked over data regenerated from parser.rs / parser.kiki on every run: the checked-in ACTION/GOTO tables satisfy every local LR validity condition for the grammar of parser.kiki (C09_table_valid, decide +kernel), hence for every token list the front-end parser never panics, returns a CST iff the list is a sentence of that grammar, and the CST's leaves are the input tokens (C09_parse_correct); kinds, rule numbering and reduce arms agree (C09_kinds, _nonterminals, _rule_numbering, _reduce_arms). "
-            "Partial: halting on invalid token lists; the exact error span (Token::start/content_len vs source) is compared with an Earley oracle's least dead prefix and the token texts.",
+    "C09": ("proof", "Kernel-checked over data regenerated from parser.rs / parser.kiki on every run: the checked-in ACTION/GOTO tables satisfy every local LR validity condition for the grammar of parser.kiki (C09_table_valid, decide +kernel), hence for every token list the front-end parser never panics, returns a CST iff the list is a sentence of that grammar, and the CST's leaves are the input tokens (C09_parse_correct); kinds, rule numbering and reduce arms agree (C09_kinds, _nonterminals, _rule_numbering, _reduce_arms); a parse error carries exactly the start offset, text (the source slice) and end offset of the token the parser stopped at, which exists, or (len, \"\", len) at end of input, and the conversion cannot panic (C09_error_span); that token is the first offending one (C03_front_end_first_offending: tightB and productiveB also hold in the kernel for parser.rs); cst_to_ast loses nothing (C09_flatten). "
+            "Partial: halting on invalid token lists; the error span is additionally compared with an Earley oracle's least dead prefix and the token texts on every generated invalid file.",
             "§0, §7 C09", "translator + kernel evaluation of the validator + Earley oracle"),
     "C10": ("proof", "Theorems, for every AST: validate_ast = Ok ⇔ WellFormed (Spec/WellFormed.lean: exactly one start naming a defined nonterminal, exactly one terminal enum, every reference defined in its own namespace, pairwise distinct top-level names, per-enum distinct variant names and symbol sequences, capitalisation) — C10_ok_sound, C10_ok_iff_wellFormed; validate_ast = Err e ⇒ Truthful e (variant, name or sequence and both byte positions describe a violation present at those positions, with any combination of simultaneous violations) — C10_err_truthful; Truthful e ⇒ ¬WellFormed (the two specifications agree); no panicking path. "
             "Tie to the code: the model's answer is compared with the implementation's on files with 0–3 injected violations of 28 kinds (incl. cross-namespace names), and Truthful/WellFormed are also evaluated by an independent Python oracle on the implementation's answers.",
